@@ -1,6 +1,7 @@
 package p_broker
 
 import (
+	"fmt"
 	"strings"
 
 	"pgregory.net/rapid"
@@ -81,6 +82,9 @@ func genSize(t *rapid.T, bufsize int) int {
 func sizeAtLimit(bufsize int, topic string, qos byte) int {
 	limit := bufsize - 8192
 	over := 1 + 2 + 2 + len(topic) // first byte, 2-byte remaining length (limit >= 128), topic
+	if limit-1-2 > 16383 {
+		over++ // the remaining length takes three bytes
+	}
 	if qos > 0 {
 		over += 2
 	}
@@ -213,6 +217,21 @@ func genPlanC07(t *rapid.T) Plan {
 			// and more arrives after its SUBSCRIBE packets (what the subscription
 			// tree kept of them must not live in the connection's buffer)
 			p.Ops = append(p.Ops, Op{K: "filler", C: rapid.IntRange(0, 1).Draw(t, "fc"), Bytes: rapid.SampledFrom([]int{8000, 20000, 40000}).Draw(t, "fbytes")})
+		case k < 3 && rapid.IntRange(0, 11).Draw(t, "bulk") == 0:
+			// a request whose acknowledgement needs a two-byte remaining length (>= 126
+			// return codes) or whose own length does (>= 20 filters)
+			n := rapid.SampledFrom([]int{20, 125, 126, 127, 130, 300}).Draw(t, "nbulk")
+			op := Op{K: "sub", C: rapid.IntRange(0, 1).Draw(t, "sc")}
+			for j := 0; j < n; j++ {
+				op.Filters = append(op.Filters, fmt.Sprintf("k/%d", j))
+				op.QoS = append(op.QoS, byte(rapid.IntRange(0, 2).Draw(t, "bq")))
+			}
+			p.Ops = append(p.Ops, op)
+			p.Ops = append(p.Ops, Op{K: "pub", C: rapid.IntRange(0, p.NClients-1).Draw(t, "bpc"), Topic: fmt.Sprintf("k/%d", rapid.IntRange(0, n-1).Draw(t, "bt")), PQ: byte(rapid.IntRange(0, 2).Draw(t, "bpq")), Size: 5})
+			if rapid.Bool().Draw(t, "bulk-unsub") {
+				p.Ops = append(p.Ops, Op{K: "unsub", C: op.C, Filters: op.Filters})
+				p.Ops = append(p.Ops, Op{K: "pub", C: rapid.IntRange(0, p.NClients-1).Draw(t, "bpc2"), Topic: fmt.Sprintf("k/%d", rapid.IntRange(0, n-1).Draw(t, "bt2")), Size: 5})
+			}
 		case k < 3:
 			n := rapid.SampledFrom([]int{1, 2, 3, 4, 5, 6, 8, 12}).Draw(t, "nf")
 			fs, qs := genFilters(n, rapid.IntRange(0, 2).Draw(t, "allow-invalid") == 0)
@@ -316,13 +335,20 @@ func genPlanC10(t *rapid.T) Plan {
 			p.Ops = append(p.Ops, connect(c))
 		case k < 10:
 			op := Op{K: "sub", C: c}
-			for j, n := 0, rapid.IntRange(1, 2).Draw(t, "nf"); j < n; j++ {
-				op.Filters = append(op.Filters, rapid.SampledFrom(filters).Draw(t, "f"))
+			for j, n := 0, rapid.IntRange(1, 4).Draw(t, "nf"); j < n; j++ {
+				f := rapid.SampledFrom(filters).Draw(t, "f")
+				if rapid.IntRange(0, 5).Draw(t, "refused") == 0 {
+					f = rapid.SampledFrom([]string{"a/#/b", "a+", "#x", "b/+x"}).Draw(t, "badf") // refused (0x80), the others in the packet are not
+				}
+				op.Filters = append(op.Filters, f)
 				op.QoS = append(op.QoS, byte(rapid.IntRange(0, 2).Draw(t, "q")))
 			}
 			p.Ops = append(p.Ops, op)
 		case k < 12:
 			p.Ops = append(p.Ops, Op{K: "unsub", C: c, Filters: []string{rapid.SampledFrom(filters).Draw(t, "uf")}})
+		case k == 12 && rapid.Bool().Draw(t, "aborted"):
+			// end the connection, then a connection attempt that dies before its CONNACK, then the real reconnect
+			p.Ops = append(p.Ops, Op{K: rapid.SampledFrom([]string{"disconnect", "close"}).Draw(t, "end"), C: c}, Op{K: "aborted-connect", C: c}, connect(c))
 		case k == 12:
 			p.Ops = append(p.Ops, Op{K: rapid.SampledFrom([]string{"disconnect", "close"}).Draw(t, "end"), C: c})
 		default:
@@ -380,6 +406,8 @@ func genPlanC09(t *rapid.T) Plan {
 			p.Ops = append(p.Ops, op)
 		case k < 15:
 			p.Ops = append(p.Ops, Op{K: rapid.SampledFrom([]string{"disconnect", "disconnect-close", "requests-disconnect-close", "close", "close", "garbage"}).Draw(t, "end"), C: c})
+		case k < 17 && rapid.IntRange(0, 2).Draw(t, "second-connect") == 0:
+			p.Ops = append(p.Ops, Op{K: "second-connect", C: c})
 		case k < 17:
 			p.Ops = append(p.Ops, Op{K: "pub", C: c, Topic: rapid.SampledFrom([]string{"a", "w/a"}).Draw(t, "pt"), PQ: byte(rapid.IntRange(0, 2).Draw(t, "pq")), Size: rapid.IntRange(1, 30).Draw(t, "ps")})
 		case k < 19:
